@@ -2131,8 +2131,12 @@ class StridedInterval:
                 bits=tok, stride=self.stride, lower_bound=lower, upper_bound=upper, uninitialized=self.uninitialized
             )
 
-        if (self.upper_bound & mask == self.lower_bound & mask) and ((self.upper_bound - self.lower_bound) & mask == 0):
-            # This operation doesn't affect the stride. Stride should be 0 then.
+        if (
+            (self.upper_bound & mask == self.lower_bound & mask)
+            and ((self.upper_bound - self.lower_bound) & mask == 0)
+            and (self.stride & mask == 0)
+        ):
+            # every member has the same low bits (the stride is a multiple of 2**tok). Stride should be 0 then.
 
             bound = self.lower_bound & mask
 
@@ -2198,8 +2202,12 @@ class StridedInterval:
                 bits=tok, stride=self.stride, lower_bound=lower, upper_bound=upper, uninitialized=self.uninitialized
             )
 
-        if (self.upper_bound & mask == self.lower_bound & mask) and ((self.upper_bound - self.lower_bound) & mask == 0):
-            # This operation doesn't affect the stride. Stride should be 0 then.
+        if (
+            (self.upper_bound & mask == self.lower_bound & mask)
+            and ((self.upper_bound - self.lower_bound) & mask == 0)
+            and (self.stride & mask == 0)
+        ):
+            # every member has the same low bits (the stride is a multiple of 2**tok). Stride should be 0 then.
 
             bound = self.lower_bound & mask
 
